@@ -230,7 +230,8 @@ def t_random(ctx, n):
 
 def t_login_path(ctx):
     ids = ['', 'Notch', '0123456789abcdef', 's\u00e9rveur-\u00fcn\u00ef',
-           '\u670d\u52a1\u5668-01', 'id\U0001f600', '\x00', ' a ']
+           '\u670d\u52a1\u5668-01', 'id\U0001f600', '\x00', ' a ',
+           '-5f3a9c0d12e4b7a1', '-1', '--', '-']
     k = 0
     for v in (47, 340, 757):
         for sid in ids:
